@@ -40,19 +40,23 @@ def dotList (s : String) : List Nat :=
 structure SGroup where
   raws : List (Option Bytes)        -- `none` = placeholder (E / P), resolved by the harness
   act : Option DataAct := none
+  truncate : Bool := false          -- the peer ends the data stream without a TLS close-notify
+  startTls : Bool := false
   deriving Repr
 
 def parseGroup (s : String) : Option SGroup := do
   let mut g : SGroup := { raws := [] }
   for it in s.splitOn "," do
     if it = "" then continue
+    else if it = "T" then g := { g with startTls := true }
+    else if it = "B" || it = "G" || it = "X" then pure ()
     else if it = "E" || it = "P" then g := { g with raws := g.raws ++ [none] }
     else match it.toList with
       | 'r' :: t => let b ← bytesOfHexChars t; g := { g with raws := g.raws ++ [some b] }
       | 'c' :: _ => pure ()
       | 'D' :: t =>
         match (String.ofList t).splitOn ":" with
-        | ["send", p, _, _] => let p ← parsePayload p; g := { g with act := some (.send p) }
+        | ["send", p, _, e] => let p ← parsePayload p; g := { g with act := some (.send p), truncate := e = "t" }
         | ["recv", _, _] => g := { g with act := some .recv }
         | ["none"] => g := { g with act := some .touch }
         | _ => none
@@ -118,7 +122,8 @@ def renderEp (addr : Bytes) (port : Nat) : String :=
   s!"{String.ofList (addr.map fun b => if b = 58 then ';' else Char.ofNat b)}#{port}"
 
 def renderEv : Ev → String
-  | .ctlConnect => "cc" | .ctlShutdown => "csh" | .ctlClose => "cx"
+  | .ctlConnect _ _ => "cc" | .ctlShutdown => "csh" | .ctlClose => "cx"
+  | .ctlReply _ _ => "" | .listing _ => "" | .ctlWriteFail _ => ""
   | .ctlWrite b => s!"w:{hexOfBytes b}"
   | .ctlReadLine => "rl"
   | .obsConnected o h p => s!"o{o}:c:{hexOfBytes h}:{p}"
@@ -267,7 +272,7 @@ def runOp (w : World) (op : SOp) (o : Oracles) : Option (List String × World) :
     src := ⟨[], []⟩, srcFailAt := none, srcReads := 0, polls := [], cancelled := false, peerGot := [], trace := [] }
   let (prog, w1) ← opProgram op w0
   let (res, w2) := prog w1
-  let evs := w2.trace.map renderEv
+  let evs := (w2.trace.map renderEv).filter (· != "")
   let sinkTok := if op.name = "get" then
       [s!"sink:{w2.sink.length}:{(fnv64 w2.sink).toNat}:{if w2.sink.length ≤ 512 then hexOfBytes w2.sink else "-"}:{w2.sinkFlushes}"] else []
   let fds := match w2.conn with
